@@ -250,7 +250,7 @@ def dec_shown(tok, encoding):
 
 MODES = {  # reading writing appending create exclusive truncate  (fs.mode.Mode semantics)
     "r": "100000", "r+": "110000", "w": "010101", "w+": "110101", "a": "011100", "a+": "111100",
-    "x": "010110", "x+": "110110",
+    "x": "010111", "x+": "110111",
 }
 
 
